@@ -88,7 +88,9 @@ func matches(pattern, kind string) bool {
 
 func program(c Case) string {
 	var b strings.Builder
-	b.WriteString("total := 0\nfunc helper(x) {\n    let y := x * 2\n    return y + 1\n}\n")
+	// the shared function has container literals as defaults and changes them in place: every call must start
+	// from the literal again (its result is 2x + 1 only then)
+	b.WriteString("total := 0\nfunc helper(x, ctx={\"v\" : 0}, lst=[0]) {\n    ctx.v := ctx.v + x\n    lst[0] := lst[0] + x\n    let y := x * 2\n    return y + 1 + ctx.v - x + lst[0] - x\n}\n")
 	for i, s := range c.Sinks {
 		name := fmt.Sprintf("s%d", i)
 		fmt.Fprintf(&b, "sink %s\n    kindmatch [ \"%s\" ],\n    priority %d\n{\n", name, s.Pattern, s.Priority)
